@@ -154,8 +154,6 @@ func (w *Writer) writeFrameAndFill(fr Frame) error {
 		}
 	}
 
-	w.nextSeqNumber++
-
 	if w.DialectRW == nil {
 		return fmt.Errorf("dialect is nil")
 	}
@@ -186,7 +184,16 @@ func (w *Writer) writeFrameAndFill(fr Frame) error {
 		ff.Signature = ff.GenerateSignature(w.OutKey)
 	}
 
-	return w.writeFrameInner(fr)
+	err := w.writeFrameInner(fr)
+	if err != nil {
+		return err
+	}
+
+	// a sequence number is consumed by written frames only,
+	// so that refused messages do not appear as lost frames to the receiver
+	w.nextSeqNumber++
+
+	return nil
 }
 
 // WriteFrame writes a Frame.
